@@ -961,11 +961,8 @@ def eval_batches(prop, imports, batches):
     os.makedirs(d, exist_ok=True)
     jobs = []
     for tag, case_type, check_fn, terms, shard, extra_defs in batches:
-        for f in os.listdir(d):
-            if f.startswith(tag + "_"):
-                os.remove(os.path.join(d, f))
         for si in range(0, len(terms), shard):
-            path = os.path.join(d, "%s_%d.v" % (tag, si // shard))
+            path = os.path.join(d, "%s_p%d_%d.v" % (tag, os.getpid(), si // shard))   # pid: concurrent runs must not collide
             with open(path, "w") as f:
                 f.write(imports + "\n" + (extra_defs or "") + "\n")
                 f.write("Definition cases : list (%s) :=\n [ " % case_type)
